@@ -22,6 +22,7 @@ is therefore `commute_sound_partial`, which excludes that pair and nothing else.
 -/
 import DafRel.Lemmas.Commute
 import DafRel.Bridge.Tables
+import DafRel.Bridge.Ops
 
 namespace DafRel.Props.C04
 
@@ -79,6 +80,23 @@ theorem commute_proj_dedup_unsound :
 /-- `is_count_dependent` / `is_order_dependent` of every operation class, as re-read from the
 source on this run, are the model's. -/
 theorem bridge_flags : Gen.flags = Bridge.modelFlags := Bridge.flags_eq
+
+/-- **Tie to the source.**  The six `commute` methods, as translated from the current Python source
+on this run (Gen/Ops.lean, translator T-e), are the model's `UOp.commute`: the theorems above are
+therefore statements about what the code says now. -/
+theorem bridge_commute_methods (cur : UOp) (tcols ccols : Cols) :
+    (∀ tag e, Gen.Calculation_commute tag e cur tcols ccols = (UOp.calc tag e).commute cur tcols ccols) ∧
+    (Gen.Deduplication_commute cur tcols ccols = UOp.dedup.commute cur tcols ccols) ∧
+    (∀ c, Gen.Projection_commute c cur tcols ccols = (UOp.proj c).commute cur tcols ccols) ∧
+    (∀ p, Gen.Selection_commute p cur tcols ccols = (UOp.sel p).commute cur tcols ccols) ∧
+    (∀ s e, Gen.Slice_commute s e cur tcols ccols = (UOp.slice s e).commute cur tcols ccols) ∧
+    (∀ ts, Gen.Sort_commute ts cur tcols ccols = (UOp.sort ts).commute cur tcols ccols) :=
+  ⟨fun tag e => Bridge.Calculation_commute_eq tag e cur tcols ccols,
+   Bridge.Deduplication_commute_eq cur tcols ccols,
+   fun c => Bridge.Projection_commute_eq c cur tcols ccols,
+   fun p => Bridge.Selection_commute_eq p cur tcols ccols,
+   fun s e => Bridge.Slice_commute_eq s e cur tcols ccols,
+   fun ts => Bridge.Sort_commute_eq ts cur tcols ccols⟩
 
 /-! ### Non-vacuity: a concrete pair meeting the hypotheses, with a non-trivial report -/
 
